@@ -321,35 +321,38 @@ func TestC03(t *testing.T) {
 			return
 		}
 
-		// exhaustive: 256 file type bytes x (Decode, NewFile, 17 accessors)
-		for b := 0; b < 256; b++ {
-			if msg, ok := checkTypeByte(b); !ok {
-				rec.Fail("typebytes", "", msg, typeCase{b})
-			}
-		}
-		rec.Eval("typebytes", 256)
-		rec.NonTrivialEnum(256)
-		rec.Exhaustive("256 file type bytes x Decode/NewFile acceptance x 17 accessors")
-
-		// exhaustive: every (file type, known message) pair, three messages
-		// of that type interleaved with one of another hosted type
-		pairs := int64(0)
-		for _, ft := range prof.FileTypes {
-			hosted := prof.HostedMsgs(ft)
-			for _, g := range prof.MsgNums() {
-				other := hosted[int(g)%len(hosted)]
-				c := seqCase{FileType: int(ft), Items: []seqItem{
-					{Global: g, Tag: 1, Local: 1, Compressed: true, TimeOffset: 7}, {Global: other, Tag: 2, Local: 2}, {Global: g, Tag: 3, Local: 1, BE: true}, {Global: g, Tag: 4, Local: 3},
-				}}
-				pairs++
-				if msg, ok := checkSeq(rec, c); !ok {
-					rec.Fail("pairs", "", msg, c)
+		if hx.FirstShard() {
+			// exhaustive: 256 file type bytes x (Decode, NewFile, 17 accessors)
+			for b := 0; b < 256; b++ {
+				if msg, ok := checkTypeByte(b); !ok {
+					rec.Fail("typebytes", "", msg, typeCase{b})
 				}
 			}
+			rec.Eval("typebytes", 256)
+			rec.NonTrivialEnum(256)
+			rec.Exhaustive("256 file type bytes x Decode/NewFile acceptance x 17 accessors")
+
+			// exhaustive: every (file type, known message) pair, three messages
+			// of that type interleaved with one of another hosted type
+			pairs := int64(0)
+			for _, ft := range prof.FileTypes {
+				hosted := prof.HostedMsgs(ft)
+				for _, g := range prof.MsgNums() {
+					other := hosted[int(g)%len(hosted)]
+					c := seqCase{FileType: int(ft), Items: []seqItem{
+						{Global: g, Tag: 1, Local: 1, Compressed: true, TimeOffset: 7}, {Global: other, Tag: 2, Local: 2}, {Global: g, Tag: 3, Local: 1, BE: true}, {Global: g, Tag: 4, Local: 3},
+					}}
+					pairs++
+					if msg, ok := checkSeq(rec, c); !ok {
+						rec.Fail("pairs", "", msg, c)
+					}
+				}
+			}
+			rec.Eval("pairs", pairs)
+			rec.NonTrivialEnum(pairs)
+			rec.Exhaustive("every (file type, known message type) pair with 3 tagged messages of that type and one of another type")
+
 		}
-		rec.Eval("pairs", pairs)
-		rec.NonTrivialEnum(pairs)
-		rec.Exhaustive("every (file type, known message type) pair with 3 tagged messages of that type and one of another type")
 
 		hx.RapidCheck(t, rec, "sequences", func(rt *rapid.T, fail func(string, string, any)) {
 			c := drawSeq(gen.D{T: rt})
